@@ -278,6 +278,7 @@ func c03RunSet(c *Ctx, s *c03Set, nEnc int) {
 	c03ShallowCopyPRNG(c, s)
 	c03Unsupported(c, s)
 	c03DecryptJunk(c, s, c.Scale(6, 16))
+	c03KeygenReused(c, s)
 	c03DecryptReusedReceiver(c, s)
 	c03Statistics(c, s)
 }
@@ -588,7 +589,7 @@ func c03OneEncryption(c *Ctx, s *c03Set, v *c03Variant) (alive bool) {
 	c03DecTie(c, s, ct, r.Intn(s.maxL+1), r.Intn(2) == 0)
 
 	// ---- probes
-	c03ProbeEncryption(c, s, v, api, deg, level, junk, ct, ptIn, tA, tE0)
+	c03ProbeEncryption(c, s, v, api, deg, level, junk, ct, ptIn, tA, tE0, tU, tE1)
 	return true
 }
 
